@@ -485,7 +485,7 @@ fn hunt_fen(seed: u64, budget: f64, stats: bool) -> i32 {
         for _ in 0..1 + rng.below(3) {
             if bytes.is_empty() { break; }
             let i = rng.below(bytes.len());
-            let pool = ['/', ' ', '-', '9', '0', '8', 'k', 'K', 'x', 'w', 'b', 'e', '3', '6', 'a', 'h', 'i', 'é', '→', '\n', '\r'];
+            let pool = ['/', ' ', '-', '9', '0', '8', 'k', 'K', 'x', 'w', 'b', 'e', '3', '6', 'a', 'h', 'i', 'é', '→', '\n', '\r', '٨', '½', 'Ⅷ', '８', '²', '\u{0}', '\t'];
             match rng.below(4) { 0 => { bytes[i] = pool[rng.below(pool.len())]; } 1 => { bytes.remove(i); } 2 => { bytes.insert(i, pool[rng.below(pool.len())]); } _ => { bytes.truncate(i); } }
         }
         let m: String = bytes.into_iter().collect();
@@ -556,6 +556,33 @@ fn hunt_playout(seed: u64, budget: f64, stats: bool) -> i32 {
 }
 fn parse_uci(p: &Pos, t: &str) -> Option<Mv> { p.legal(false).into_iter().find(|m| m.uci() == t) }
 
+// ---------- C05: "changing any single component of a position changes the key" -- exhaustive over the REAL table ----------
+fn check_tables() -> Option<String> {
+    let h = ZobristHasher::create_zobrist_hasher();
+    let kinds = [PieceKind::Pawn, PieceKind::Knight, PieceKind::Bishop, PieceKind::Rook, PieceKind::Queen, PieceKind::King];
+    let mut all: Vec<u64> = vec![];
+    for r in 2..10 { for c in 2..10 {
+        let mut here: Vec<u64> = vec![];
+        for col in [PieceColor::White, PieceColor::Black] { for k in kinds { here.push(h.get_val_for_piece(Piece { color: col, kind: k }, Point(r, c))); } }
+        for (i, a) in here.iter().enumerate() {
+            if *a == 0 { return Some(format!("piece-square constant for square ({},{}) is zero: placing that piece does not change the key", r, c)); }
+            for b in &here[i + 1..] { if a == b { return Some(format!("two pieces share a constant on square ({},{}): swapping them does not change the key", r, c)); } }
+        }
+        all.extend(here);
+    } }
+    let side = h.get_black_to_move_val();
+    let castles = [h.get_val_for_castling(CastlingType::WhiteKingSide), h.get_val_for_castling(CastlingType::WhiteQueenSide), h.get_val_for_castling(CastlingType::BlackKingSide), h.get_val_for_castling(CastlingType::BlackQueenSide)];
+    let eps: Vec<u64> = (2..10).map(|f| h.get_val_for_en_passant(f)).collect();
+    if side == 0 { return Some("side-to-move constant is zero".into()); }
+    for c in castles { if c == 0 { return Some("a castling constant is zero".into()); } }
+    for (i, a) in eps.iter().enumerate() { if *a == 0 { return Some("an en-passant file constant is zero".into()); } for b in &eps[i + 1..] { if a == b { return Some("two en-passant files share a constant".into()); } } }
+    // all 768 + 1 + 4 + 8 constants pairwise different (no component can stand in for another)
+    all.push(side); all.extend(castles); all.extend(eps);
+    let n = all.len(); all.sort(); all.dedup();
+    if all.len() != n { return Some("two different components share a constant".into()); }
+    None
+}
+
 fn get_str<'a>(json: &'a str, key: &str) -> Option<String> {
     let pat = format!("\"{}\":\"", key);
     let i = json.find(&pat)? + pat.len();
@@ -578,7 +605,8 @@ fn main() {
                 "C04" => { let r = hunt_positions(prop, focus, seed, budget * 0.6, a[1] == "cross"); if r != 0 { r } else { hunt_playout(seed, budget * 0.4, a[1] == "cross") } }
                 "C09" => hunt_slice(seed, budget),
                 "C15" => { let r = hunt_point(); if r != 0 { r } else { hunt_fen(seed, budget, a[1] == "cross") } }
-                "C05" => { let r = hunt_positions(prop, focus, seed, budget * 0.7, a[1] == "cross"); if r != 0 { r } else { hunt_fen(seed, budget * 0.3, a[1] == "cross") } }
+                "C05" => { if let Some(d) = check_tables() { println!("CASE {{\"kind\":\"tables\",\"observed\":\"{}\",\"input_id\":\"tables\"}}", jesc(&d)); std::process::exit(1); } if a[1] == "cross" { println!("STATS table_constants=781 pairwise_distinct=true"); }
+                    let r = hunt_positions(prop, focus, seed, budget * 0.7, a[1] == "cross"); if r != 0 { r } else { hunt_fen(seed, budget * 0.3, a[1] == "cross") } }
                 _ => hunt_positions(prop, focus, seed, budget, a[1] == "cross"),
             }
         }
@@ -590,6 +618,7 @@ fn main() {
                 "playout" => { let h = ZobristHasher::create_zobrist_hasher(); let start = Pos::from_fen(&get_str(js, "fen").unwrap()).unwrap(); let mut cur = start.clone(); let mut ms = vec![];
                     for t in get_str(js, "moves").unwrap().split_whitespace() { let m = parse_uci(&cur, t).unwrap(); cur = cur.apply(m); ms.push(m); }
                     check_playout(&start, get_str(js, "use_fen").unwrap() == "true", &ms, &h) }
+                "tables" => check_tables(),
                 "draw" => check_draw(get_str(js, "count").unwrap().parse().unwrap()),
                 "go" => { let g = |k: &str| get_str(js, k).unwrap().parse::<i128>().unwrap(); let m = get_str(js, "movestogo").unwrap(); let mtg = if m == "None" { None } else { m.trim_start_matches("Some(").trim_end_matches(')').parse().ok() };
                     check_slice(&GameTime { wtime: g("wtime"), btime: g("btime"), winc: g("winc"), binc: g("binc"), movestogo: mtg }, js.contains("\"white\":true")) }
